@@ -68,7 +68,7 @@ def tag_of_b(b):
 class Env:
     """A real Sampler whose particles carry tags; `infset` = tags on which the likelihood is -inf."""
 
-    def __init__(self, d, n, blobs, resample, vectorize=False):
+    def __init__(self, d, n, blobs, resample, vectorize=False, clustered=False):
         from tempest import Sampler
         self.d, self.n, self.blobs = d, n, blobs
         self.infset = set()
@@ -87,6 +87,14 @@ class Env:
         self.core = self.s._core
         self.state = self.s.state
         self.core._initialize_fresh()
+        if clustered:
+            # the resampler asks the (shared) clusterer for labels of the resampled particles: a scripted double that labels a
+            # particle by the parity of its tag, so that an active set spans two clusters
+            class _Clusterer:
+                def predict(self_, u):
+                    return np.array([tag_of_u(r[0]) % 2 for r in np.atleast_2d(u)], dtype=int)
+            self.core.resampler.clustering = True
+            self.core.resampler.clusterer = _Clusterer()
 
     def decode(self, cur):
         u = [tag_of_u(r[0]) for r in cur["u"]]
@@ -96,16 +104,16 @@ class Env:
         return u, x, l, b
 
 
-def _dummy_modes(d):
+def _dummy_modes(d, K=2):
     from tempest.modes import ModeStatistics
-    return ModeStatistics(np.zeros((1, d)), np.eye(d).reshape(1, d, d), np.array([1e6]))
+    return ModeStatistics(np.zeros((K, d)), np.array([np.eye(d)] * K), np.full(K, 1e6))
 
 
-def run_sequence(rng, d, n, blobs, resample, vectorize, n_iter):
+def run_sequence(rng, d, n, blobs, resample, vectorize, n_iter, clustered=False):
     """drive the real components; returns (ops for the model, impl_final, impl_hist, flags)"""
     import tempest.mcmc as mcmc
     import tempest.steps.resample as rsm
-    env = Env(d, n, blobs, resample, vectorize)
+    env = Env(d, n, blobs, resample, vectorize, clustered)
     st = env.state
     ops = []
     flags = set()
@@ -223,8 +231,11 @@ def correspond(tier):
         vec = (not blobs) and rng.random() < 0.3
         resample = rng.choice(["mult", "syst"])
         n_iter = rng.randint(2, 5)
+        clustered = rng.random() < 0.4
         try:
-            ops, fin, hist, flags = run_sequence(rng, d, n, blobs, resample, vec, n_iter)
+            ops, fin, hist, flags = run_sequence(rng, d, n, blobs, resample, vec, n_iter, clustered)
+            if clustered:
+                flags.add("clustered_resampling")
         except Exception as e:  # the real code raising on a legal sequence is itself a disagreement
             c.disagree(input={"d": d, "n": n, "blobs": blobs, "resample": resample}, impl=f"raised {type(e).__name__}: {e}", model="runs")
             continue
@@ -266,7 +277,7 @@ def _oracle_sequences(rng, n_seq):
         blobs = rng.random() < 0.5
         resample = rng.choice(["mult", "syst"])
         try:
-            ops, fin, hist, flags = run_sequence(rng, d, n, blobs, resample, False, rng.randint(2, 5))
+            ops, fin, hist, flags = run_sequence(rng, d, n, blobs, resample, False, rng.randint(2, 5), rng.random() < 0.5)
         except Exception as e:  # noqa
             found.append({"what": f"pipeline raised {type(e).__name__}: {e}", "config": {"d": d, "n": n, "blobs": blobs, "resample": resample}})
             continue
